@@ -8,6 +8,7 @@ WIRE = [("wire-counter", {"quick": ["-n", "40"], "thorough": ["-n", "1500"], "se
         ("wire-map", {"quick": ["-n", "40"], "thorough": ["-n", "1500"], "search": ["-n", "400"]}),
         ("wire-list", {"quick": ["-n", "40"], "thorough": ["-n", "1500"], "search": ["-n", "400"]})]
 WIREF = [(n, {k: v + ["-faults"] for k, v in a.items()}) for (n, a) in WIRE]
+WIRED = [(n, {k: v + ["-dbfaults"] for k, v in a.items()}) for (n, a) in WIRE]
 SRV_TRUST = ["in-memory MongoDB wire-protocol server (harness/fakemongo) standing in for mongod: unique _id, ordered insertMany, upsert, find with sort — assumed to match MongoDB for the operators orda uses",
              "in-process MQTT broker (harness/fakemqtt) recording publishes"]
 API = [("api-counter", {"quick": ["-n", "60"], "thorough": ["-n", "3000"], "search": ["-n", "1000"]}),
@@ -23,6 +24,8 @@ PROPS = {
     "C04": {"slices": [CRDT[2], API[2]], "trusted": [], "assumptions": ["order agreement ACROSS replicas rests on list convergence (C01, list instance not yet proved)"]},
     "C05": {"slices": WIRE, "trusted": SRV_TRUST, "assumptions": ["the composition of the proved ingredients over Net.v is not yet a theorem (C05_statement_list is a definition)"]},
     "C07": {"slices": WIREF, "trusted": SRV_TRUST, "assumptions": ["faults exercised: duplicated request, dropped response + retry; delayed (stale) responses are not driven", "C07_statement_list is a definition, not yet a theorem"]},
+    "C08": {"slices": WIRED, "trusted": SRV_TRUST + ["fault model: a storage command fails atomically (no partial effect of the failing command itself); a server crash is modelled as the failure of the next command plus a lost response"],
+            "assumptions": ["the recovery half (C08_statement_list) is a definition, not yet a theorem", "handlers of one datatype run one at a time"]},
     "C06": {"slices": WIRE + WIREF, "trusted": SRV_TRUST, "assumptions": ["handlers of one datatype run one at a time (the lock, C12)", "no storage fault during the request (C08)"]},
     "C13": {"slices": WIRE, "trusted": SRV_TRUST, "assumptions": ["handlers of one datatype run one at a time"]},
     "C16": {"slices": WIRE, "trusted": SRV_TRUST, "assumptions": ["liveness of the Go code (no hang, no crash) is tested, not proved"]},
